@@ -240,7 +240,7 @@ func (h *Hasher) GenerateHash(p string) (string, error) {
 		return "", ErrInjected
 	}
 	h.Calls++
-	return MakeHash(p, verif.FreshString("salt", 8)), nil
+	return MakeHash(p, verif.FreshString("salt!alnum", 8)), nil
 }
 
 var errMismatch = &injected{"hashedPassword is not the hash of the given password"}
